@@ -56,21 +56,31 @@ def plan(tier, seed):
     return specs
 
 
-def case_of(L, lm, stable, recs, variant):
-    return {"layout": conv.layout_desc(L), "linkmode": lm, "stable": stable, "records": [r.line() for r in recs], "variant": list(variant)}
+def case_of(L, lm, stable, recs, variant, gfa_order="so", pad=None):
+    return {"layout": conv.layout_desc(L), "linkmode": lm, "stable": stable, "records": [r.line() for r in recs], "variant": list(variant),
+            "gfa_order": gfa_order, "pad": pad}
 
 
-def check_index(res, g, L, lm, stable, recs, variant, scratch, tag="x", gz_graph=False):
+def gfa_text(g, gfa_order):
+    """line order of the graph file is part of the input: 'so' = S lines in SO order then L lines; 'rev' = L lines
+    first, then the S lines in reverse order"""
+    if gfa_order == "so":
+        return g.text()
+    return "".join(l.line() + "\n" for l in g.links) + "".join(x.line() + "\n" for x in reversed(list(g.segs.values())))
+
+
+def check_index(res, g, L, lm, stable, recs, variant, scratch, tag="x", gfa_order="so", pad=None):
     gfa_path = os.path.join(scratch, "g.gfa")
-    fw.write_text(gfa_path, g.text())
+    fw.write_text(gfa_path, gfa_text(g, gfa_order))
+    unpadded = recs
+    if pad:
+        recs = vi.pad_records(recs, pad)
     text = "".join(r.line() + "\n" for r in recs)
     gaf_path = os.path.join(scratch, f"{tag}.gaf" + ("" if variant[0] == "plain" else ".gz"))
     vi.write_gaf(gaf_path, text, variant)
     out, ind = vi.run_index(gaf_path, gfa_path)
     res.count("index_runs")
-    case = case_of(L, lm, stable, recs if len(recs) <= 60 else recs[:60], variant)
-    if len(recs) > 60:
-        case["records_truncated_from"] = len(recs)
+    case = case_of(L, lm, stable, unpadded, variant, gfa_order, pad)
     if out.kind != "ok" or ind is None:
         res.fail(f"C03/index:{out.sig()}", f"[{L.name}, {lm} links, {'stable' if stable else 'unstable'} GAF, {variant[0]}] gaftools index failed on valid input: {out.brief()}", case)
         return None
@@ -107,13 +117,13 @@ def check_index(res, g, L, lm, stable, recs, variant, scratch, tag="x", gz_graph
         if got != want:
             miss, extra = sorted(want - got), sorted(got - want)
             one = [r for r in recs if r.qname in (miss + extra)[:1]]
-            c2 = case_of(L, lm, stable, one or recs[:1], variant)
+            c2 = dict(case)
             c2["node"] = node
             res.fail(
                 "C03/" + ("missing-record" if miss else "false-entry"),
                 f"[{L.name}, {lm}, {'stable' if stable else 'unstable'}, {variant[0]}] node {node}: records missing from its entry {miss[:4]}, records listed that do not traverse it {extra[:4]}"
                 + (f" e.g. {one[0].path} [{one[0].ps},{one[0].pe})" if one else ""),
-                c2 if one else case,
+                c2,
             )
     return ind, gaf_path, gfa_path
 
@@ -143,8 +153,8 @@ def run_shard(spec, tier, scratch):
         if not recs:
             continue
         check_index(res, g, L, lm, stable, recs, ("plain",), scratch, "all")
-        check_index(res, g, L, lm, stable, recs[::-1], ("plain",), scratch, "rev")
-        check_index(res, g, L, lm, stable, recs, ("pysam",), scratch, "allgz")
+        check_index(res, g, L, lm, stable, recs[::-1], ("plain",), scratch, "rev", gfa_order="rev")
+        check_index(res, g, L, lm, stable, recs, ("pysam",), scratch, "allgz", gfa_order="rev")
         if spec.get("bgzf"):
             sm = small_file(recs)
             text = "".join(r.line() + "\n" for r in sm)
@@ -152,9 +162,8 @@ def run_shard(spec, tier, scratch):
                 check_index(res, g, L, lm, stable, sm, variant, scratch, "cut")
                 res.count("bgzf_layouts")
         if spec.get("big"):
-            big = vi.pad_records(recs[:40], 150_000)
-            check_index(res, g, L, lm, stable, big, ("bgzip64k",), scratch, "big")
-            check_index(res, g, L, lm, stable, big, ("pysam",), scratch, "bigp")
+            check_index(res, g, L, lm, stable, recs[:40], ("bgzip64k",), scratch, "big", pad=150_000)
+            check_index(res, g, L, lm, stable, recs[:40], ("pysam",), scratch, "bigp", pad=150_000)
             res.count("files_over_64k", 2)
     if urecs:
         res.sample({"layout": L.name, "links": lm, "unstable": urecs[len(urecs) // 2].line(), "stable": srecs[len(urecs) // 2].line(), "nodes": {n: [s.SN, s.SO, s.SO + s.LN] for n, s in g.segs.items()}})
@@ -168,5 +177,5 @@ def replay(case, scratch):
     recs = [rgfa.Rec.parse(l) for l in case["records"]]
     v = case["variant"]
     variant = tuple(v) if v[0] != "bgzf" else ("bgzf", v[1], v[2], v[3])
-    check_index(res, g, L, case["linkmode"], case["stable"], recs, variant, scratch, "rp")
+    check_index(res, g, L, case["linkmode"], case["stable"], recs, variant, scratch, "rp", gfa_order=case.get("gfa_order", "so"), pad=case.get("pad"))
     return res.failures
